@@ -200,7 +200,9 @@ theorem preexecute_error_class (r : Rules) (tx : Tx) (ts : Int) :
   have : Activated tx.auth ts := Classical.byContradiction fun h => hu (hau.mpr h)
   simp [hc, hm, hx, hf, hl, ha, hu, this]
 
-/-- **Mempool admission applies the same checks at the current time.** -/
+/-- **Mempool admission applies the same checks at the current time.** (Definitional on the
+model: `admission` *is* `preExecute` at `now` with `GetRules(now)`; what carries content is the
+tie, which drives the real `PreExecutor.PreExecute`.) -/
 theorem admission_same_checks (rulesAt : Int → Rules) (tx : Tx) (now : Int) :
     admission rulesAt tx now = .ok ↔
       tx.chainId = (rulesAt now).chainId ∧ tx.expiry % 1000 = 0 ∧ now ≤ tx.expiry ∧
@@ -227,5 +229,43 @@ theorem wrap_overflow_witness :
     ((2:Int) ^ 63 - 808) % 1000 = 0 ∧ (2:Int) ^ 63 - 808 ≤ (2 ^ 63 - 808) + 1000 := by
   refine ⟨by decide, ?_, by decide, by decide⟩
   unfold NoWrap; omega
+
+/-- The other direction of wrap-around is **fail-open**, outside the domain the rules can
+produce: with a *negative* window and a timestamp near `MinInt64` the sum wraps to a huge
+positive bound and an expiry beyond `ts + window` is accepted (`ts = e = -2^63 + 808`,
+`window = -1000`). Excluded domain: `Rules.GetValidityWindow()` is a non-negative duration and
+block / wall-clock timestamps are non-negative; see `nonneg_overflow_fail_closed`. -/
+theorem wrap_negative_witness :
+    verifyTimestamp (-2 ^ 63 + 808) (-2 ^ 63 + 808) divisor (-1000) = .ok ∧
+    ¬ NoWrap (-2 ^ 63 + 808) (-1000) ∧
+    ¬ ((-2 : Int) ^ 63 + 808 ≤ (-2 ^ 63 + 808) + (-1000)) := by
+  refine ⟨by decide, ?_, by decide⟩
+  unfold NoWrap; omega
+
+/-- On the reachable domain (non-negative `int64` timestamp and window) an overflowing
+`ts + window` is fail-closed: `VerifyTimestamp` never returns nil. -/
+theorem nonneg_overflow_fail_closed (e ts w : Int) (hts : 0 ≤ ts) (hw : 0 ≤ w)
+    (hts' : ts < 2 ^ 63) (hw' : w < 2 ^ 63) (hov : 2 ^ 63 ≤ ts + w) :
+    verifyTimestamp e ts divisor w ≠ .ok := by
+  rw [Ne, verifyTimestamp_ok_iff]
+  intro ⟨_, h2, h3⟩
+  unfold wrap64 at h3
+  omega
+
+/-- Hence on the reachable domain the property's interval clause holds for everything that
+passes, overflow or not: `PreExecute = ok` implies `ts ≤ expiry ≤ ts + window` (mathematically),
+whole second, chain id, action count and activation. -/
+theorem preexecute_ok_sound_nonneg (r : Rules) (tx : Tx) (ts : Int) (hts : 0 ≤ ts)
+    (hw : 0 ≤ r.window) (hts' : ts < 2 ^ 63) (hw' : r.window < 2 ^ 63)
+    (hok : preExecute r tx ts = .ok) :
+    tx.expiry % 1000 = 0 ∧ ts ≤ tx.expiry ∧ tx.expiry ≤ ts + r.window ∧
+      tx.chainId = r.chainId ∧ tx.actions.length ≤ r.maxActions ∧
+      (∀ a ∈ tx.actions, Activated a ts) ∧ Activated tx.auth ts := by
+  by_cases hov : 2 ^ 63 ≤ ts + r.window
+  · exfalso
+    have h := (preexecute_ok_iff r tx ts).mp hok
+    exact nonneg_overflow_fail_closed tx.expiry ts r.window hts hw hts' hw' hov
+      ((verifyTimestamp_ok_iff _ _ _).mpr ⟨h.2.1, h.2.2.1, h.2.2.2.1⟩)
+  · exact (preexecute_ok_iff_nowrap r tx ts ⟨by omega, by omega⟩).mp hok
 
 end HyperModel.Props.C10
